@@ -46,7 +46,7 @@ def plan(tier, seed):
 def conclude(agg):
     c = agg['counters']
     r = []
-    for k in ('roundtrip_bp', 'mvarray_strings', 'mv_str_roundtrip', 'pack_roundtrip', 'popcount', 'alias_entries', 'padding_lanes_checked'):
+    for k in ('roundtrip_bp', 'mvarray_strings', 'mv_str_roundtrip', 'pack_roundtrip', 'popcount', 'alias_entries', 'padding_lanes_checked', 'popcount_large_arrays', 'result_mutated_then_repeated'):
         if c.get(k, 0) == 0:
             r.append(f'monitor counter {k} is zero')
     if len(agg['sets'].get('dtypes', ())) < 8:
@@ -136,6 +136,10 @@ def one(ctx, rng, nrng):
         with ctx.guard('mvarray-strings', case):
             if kind == 'strings':
                 got = L.mvarray(*strs)
+                if got.flags.writeable and got.shape == exp.shape and np.array_equal(got, exp):
+                    got[...] ^= 7                      # a caller may modify what it got (the library's own STIL code does):
+                    got = L.mvarray(*strs)             # the next conversion of the same strings must not see that
+                    ctx.count('result_mutated_then_repeated')
                 if got.shape != exp.shape:
                     ctx.violation('axis-convention', f'mvarray of {P} strings of length {S}: shape {got.shape}, expected {exp.shape}', case)
                 elif not np.array_equal(got, exp):
@@ -174,6 +178,13 @@ def one(ctx, rng, nrng):
                     ctx.violation('mv_str', f'mv_str({a.tolist()}) = {s!r}', case)
                 elif len(a) >= 2 and not np.array_equal(L.mvarray(str(s)), a):
                     ctx.violation('mv_str', f'mvarray(mv_str(a)) != a for {a.tolist()}', case)
+                elif len(a) >= 2:
+                    r1 = L.mvarray(str(s))
+                    if r1.flags.writeable:
+                        r1[...] ^= 7
+                        if not np.array_equal(L.mvarray(str(s)), a):
+                            ctx.violation('mv_str', f'mvarray({str(s)!r}) returns other values after an earlier result was modified in place', case)
+                        ctx.count('result_mutated_then_repeated')
         else:
             S, P = rng.randint(2, 8), rng.randint(2, 12)
             a = nrng.integers(0, 8, size=(S, P), dtype=np.uint8)
@@ -241,10 +252,16 @@ def one(ctx, rng, nrng):
         rank = rng.randint(1, 3)
         shape = tuple(rng.randint(1, 9) for _ in range(rank))
         a = nrng.integers(0, 256, size=shape, dtype=np.uint8)
-        case = {'rngkey': getattr(rng, 'key', None), 'kind': 'popcount', 'a': a.tolist()}
+        big = rng.random() < 0.15
+        if big:
+            # large packed arrays: more one bits than 8/16-bit counters hold
+            shape = (rng.choice([300, 9000, 70000]),)
+            a = nrng.integers(0, 256, size=shape, dtype=np.uint8) if rng.random() < 0.5 else np.full(shape, 0xff, dtype=np.uint8)
+            ctx.count('popcount_large_arrays')
+        case = {'rngkey': getattr(rng, 'key', None), 'kind': 'popcount', 'a': a.tolist() if not big else f'{shape} array'}
         with ctx.guard('popcount', case):
             got = kyupy.popcount(a)
-            exp = sum(bin(int(v)).count('1') for v in a.flat)
+            exp = sum(bin(int(v)).count('1') for v in a.flat) if not big else int(np.unpackbits(a).astype(np.int64).sum())
             if int(got) != exp:
                 ctx.violation('popcount', f'popcount = {got}, expected {exp}', case)
             ctx.count('popcount')
